@@ -136,6 +136,9 @@ class Topo:
                 self.ns(self.n + 1, "ip -6 route add blackhole fd00:%x:0::/64" % self.net, check=False)
             if self.spec.get("tcp_sack_off"):
                 self.ns(self.n + 1, "sysctl -qw net.ipv4.tcp_sack=0")
+            if self.spec.get("tcp_ts_off"):
+                # without timestamps (and without SACK) the target's acknowledgements carry no TCP option at all
+                self.ns(self.n + 1, "sysctl -qw net.ipv4.tcp_timestamps=0")
             if self.spec.get("ecn"):
                 # the client's kernel asks for ECN on the connections it opens (the SACK variant dials through the
                 # kernel): the target's SYN-ACK then carries ECE besides SYN|ACK
@@ -261,6 +264,7 @@ def gen_spec(rng, idx):
             "max_ttl_delta": rng.choice([-1, 0, 1, 1, 2, 3]), "queries": rng.choice([1, 1, 2, 3]), "e2e": rng.choice([0, 1, 3]),
             "protos": rng.sample(["icmp", "udp", "tcp:syn", "tcp:sack", "tcp:prefer_sack", "icmp6", "udp6"], rng.choice([3, 4, 5, 6])), "timeout_ms": rng.choice([300, 500]),
             "concurrent_cli": rng.random() < 0.3}
+    spec["tcp_ts_off"] = rng.random() < 0.4
     if spec["tcp_sack_off"]:
         spec["port_open"] = True
     if rng.random() < 0.3:
@@ -429,7 +433,7 @@ def main():
         specs[0] = {"routers": 3, "port": 443, "port_open": True, "tcp_sack_off": False, "silent": [2], "max_ttl_delta": 1, "queries": 3, "e2e": 2, "ecn": True,
                     "protos": ["icmp", "udp", "tcp:syn", "tcp:sack", "tcp:prefer_sack", "icmp6", "udp6"], "timeout_ms": 500, "concurrent_cli": False}
         if len(specs) > 1:
-            specs[1] = {"routers": 2, "port": 8080, "port_open": True, "tcp_sack_off": True, "silent": [], "max_ttl_delta": 0, "queries": 1, "e2e": 1,
+            specs[1] = {"routers": 2, "port": 8080, "port_open": True, "tcp_sack_off": True, "tcp_ts_off": True, "silent": [], "max_ttl_delta": 0, "queries": 1, "e2e": 1,
                         "protos": ["tcp:sack", "tcp:prefer_sack", "tcp:syn", "udp"], "timeout_ms": 400, "concurrent_cli": True}
         if len(specs) > 3:
             specs[3] = {"routers": 2, "port": 443, "port_open": True, "tcp_sack_off": False, "silent": [], "max_ttl_delta": 1, "queries": 1, "e2e": 1, "dest_filtered": True,
